@@ -874,7 +874,8 @@ func (d *DataRow) getStatsKey(res *Response) string {
 	}
 	keyValues := []string{}
 	for i := range res.request.RequestColumns {
-		keyValues = append(keyValues, d.GetString(res.request.RequestColumns[i]))
+		// lists are joined by the separator of the key itself, keep one key part per column
+		keyValues = append(keyValues, strings.ReplaceAll(d.GetString(res.request.RequestColumns[i]), ListSepChar1, ","))
 	}
 
 	return strings.Join(keyValues, ListSepChar1)
